@@ -170,12 +170,73 @@ def yamlDurDec' (t : Bytes) : Option (Option Int) :=
   match parseDur t with
   | .ok ns => some (some ns) | .err => some none | .unmodelled => none | .fuel => none
 
-def step (_ : Unit) (line : String) : Unit × String :=
+/-! sequences on one long-lived filter (blocks starting with C18.sreset) -/
+
+/-- Driver state: the model state of the current block (`none` before the first reset). -/
+abbrev St := Option ReqState
+
+def pSvcConf : P SvcConf := do
+  let zone ← pHex; let days ← pWeek pRange; let n ← pNat
+  pure ⟨⟨zone, days⟩, n⟩
+
+def stepSeq (st : St) (op : String) (ins impl : List String) : Option (St × String) :=
+  match op with
+  | "C18.sreset" =>
+    match ins with
+    | [] => some (some ReqState.init, verdict (impl == ["ok"]) none "ok")
+    | _ => none
+  | "C18.supd" => do
+    let s ← st
+    let g ← runP pSvcConf ins
+    -- the harness only sends valid schedules and known service IDs: the handler answers 200
+    pure (some (s.step (.update g)), verdict (impl == ["200"]) none "200")
+  | "C18.sset" => do
+    let s ← st
+    let n ← runP pNat ins
+    pure (some (s.step (.setIDs n)), verdict (impl == ["200"]) none "200")
+  | "C18.scli" => do
+    let s ← st
+    let c ← runP (do
+      let has ← pBool; let c ← pSvcConf
+      pure (if has then some c else none)) ins
+    pure (some (s.step (.client c)), verdict (impl == ["ok"]) none "ok")
+  | "C18.sreq" => do
+    let s ← st
+    let (clientSite, now, offG, offC) ← runP (do
+      let site ← tok
+      let cs ← (if site == "client" then pure true else if site == "global" then pure false else failure)
+      let sec ← pInt; let nsec ← pNat; let og ← pInt; let oc ← pInt
+      pure (cs, (⟨sec, nsec⟩ : Instant), og, oc)) ins
+    let fG : Int → Int := fun _ => offG
+    let fC : Int → Int := fun _ => offC
+    let m := requestApplied fG fC s clientSite now
+    let model := tabs [toString now.sec, toString now.nsec, toString offG, toString offC, toString m.1, toString m.2]
+    if impl.head? == some "PANIC" then pure (st, verdict false (some "C18.request-panic") model) else
+    match impl with
+    | [isec, insec, iog, ioc, ng, nc] =>
+      -- the oracle offsets belong to this instant and these zones only: if the implementation's clock or
+      -- zones differ (a shrunk or hand-edited block), there is nothing to judge
+      let synced := isec == toString now.sec && insec == toString now.nsec && iog == toString offG && ioc == toString offC
+      match ng.toNat?, nc.toNat? with
+      | some g, some c =>
+        let spec := if !synced || specRequestOK fG fC s clientSite now (g, c) then none
+          else some "C18.request-not-decided-at-its-instant"
+        pure (st, verdict (model == tabs impl) spec model)
+      | _, _ => none
+    | _ => none
+  | _ => none
+
+def step (st : St) (line : String) : St × String :=
   let fs := splitTab line
   match fs with
   | op :: rest =>
     match splitArrow rest with
     | some (ins, impl) =>
+      if op.startsWith "C18.s" then
+        match stepSeq st op ins impl with
+        | some (st', out) => (st', out)
+        | none => (st, "bad-op")
+      else
       let r := match op with
         | "C18.contains" => stepContains ins impl
         | "C18.applied" => stepApplied ins impl
@@ -188,8 +249,8 @@ def step (_ : Unit) (line : String) : Unit × String :=
         | "C18.jsondurenc" => stepDurEnc jsonDurEncode ins impl
         | "C18.yamldurenc" => stepDurEnc yamlDurEncode ins impl
         | _ => none
-      ((), r.getD "bad-op")
-    | none => ((), "bad-op")
-  | [] => ((), "bad-op")
+      (st, r.getD "bad-op")
+    | none => (st, "bad-op")
+  | [] => (st, "bad-op")
 
-def main : IO Unit := run step ()
+def main : IO Unit := run step none
